@@ -54,7 +54,10 @@ type fakeNode struct {
 	mu     sync.Mutex
 	mutLog []string
 	getFn  getOverride
-	succFn func() ([]chord.VNode, error)
+	// faultFn, if set, is asked before every KV operation; a non-nil error is
+	// returned to the caller instead of performing the operation
+	faultFn func(op string, key []byte) error
+	succFn  func() ([]chord.VNode, error)
 }
 
 var _ chord.VNode = (*fakeNode)(nil)
@@ -82,12 +85,50 @@ func (n *fakeNode) takeMutLog() []string {
 
 func (n *fakeNode) setGet(f getOverride) { n.mu.Lock(); n.getFn = f; n.mu.Unlock() }
 
+func (n *fakeNode) setFault(f func(op string, key []byte) error) {
+	n.mu.Lock()
+	n.faultFn = f
+	n.mu.Unlock()
+}
+
+func (n *fakeNode) fault(op string, key []byte) error {
+	n.mu.Lock()
+	f := n.faultFn
+	n.mu.Unlock()
+	if f == nil {
+		return nil
+	}
+	return f(op, key)
+}
+
+func (n *fakeNode) PrefixList(ctx context.Context, prefix []byte) ([][]byte, error) {
+	n.reads.Add(1)
+	if err := n.fault("PrefixList", prefix); err != nil {
+		return nil, err
+	}
+	return n.MemoryKV.PrefixList(ctx, prefix)
+}
+
+func (n *fakeNode) PrefixContains(ctx context.Context, prefix, child []byte) (bool, error) {
+	n.reads.Add(1)
+	if err := n.fault("PrefixContains", prefix); err != nil {
+		return false, err
+	}
+	return n.MemoryKV.PrefixContains(ctx, prefix, child)
+}
+
 func (n *fakeNode) Put(ctx context.Context, key, value []byte) error {
+	if err := n.fault("Put", key); err != nil {
+		return err
+	}
 	n.mut("Put", key)
 	return n.MemoryKV.Put(ctx, key, value)
 }
 func (n *fakeNode) Get(ctx context.Context, key []byte) ([]byte, error) {
 	n.reads.Add(1)
+	if err := n.fault("Get", key); err != nil {
+		return nil, err
+	}
 	n.mu.Lock()
 	f := n.getFn
 	n.mu.Unlock()
@@ -99,26 +140,44 @@ func (n *fakeNode) Get(ctx context.Context, key []byte) ([]byte, error) {
 	return n.MemoryKV.Get(ctx, key)
 }
 func (n *fakeNode) Delete(ctx context.Context, key []byte) error {
+	if err := n.fault("Delete", key); err != nil {
+		return err
+	}
 	n.mut("Delete", key)
 	return n.MemoryKV.Delete(ctx, key)
 }
 func (n *fakeNode) PrefixAppend(ctx context.Context, prefix, child []byte) error {
+	if err := n.fault("PrefixAppend", prefix); err != nil {
+		return err
+	}
 	n.mut("PrefixAppend", prefix)
 	return n.MemoryKV.PrefixAppend(ctx, prefix, child)
 }
 func (n *fakeNode) PrefixRemove(ctx context.Context, prefix, child []byte) error {
+	if err := n.fault("PrefixRemove", prefix); err != nil {
+		return err
+	}
 	n.mut("PrefixRemove", prefix)
 	return n.MemoryKV.PrefixRemove(ctx, prefix, child)
 }
 func (n *fakeNode) Acquire(ctx context.Context, lease []byte, ttl time.Duration) (uint64, error) {
+	if err := n.fault("Acquire", lease); err != nil {
+		return 0, err
+	}
 	n.mut("Acquire", lease)
 	return n.MemoryKV.Acquire(ctx, lease, ttl)
 }
 func (n *fakeNode) Renew(ctx context.Context, lease []byte, ttl time.Duration, prev uint64) (uint64, error) {
+	if err := n.fault("Renew", lease); err != nil {
+		return 0, err
+	}
 	n.mut("Renew", lease)
 	return n.MemoryKV.Renew(ctx, lease, ttl, prev)
 }
 func (n *fakeNode) Release(ctx context.Context, lease []byte, token uint64) error {
+	if err := n.fault("Release", lease); err != nil {
+		return err
+	}
 	n.mut("Release", lease)
 	return n.MemoryKV.Release(ctx, lease, token)
 }
@@ -303,6 +362,10 @@ type fakeCertProvider struct {
 	certs map[string]*tls.Certificate
 	err   error
 	calls int
+	// delay makes the provider slow (on-demand issuance / storage round trip);
+	// returnedAt is the instant just before it handed the certificate back
+	delay      time.Duration
+	returnedAt time.Time
 }
 
 func (p *fakeCertProvider) Initialize(context.Context) error { return nil }
@@ -310,6 +373,12 @@ func (p *fakeCertProvider) GetCertificate(chi *tls.ClientHelloInfo) (*tls.Certif
 	return p.GetCertificateWithContext(context.Background(), chi)
 }
 func (p *fakeCertProvider) GetCertificateWithContext(ctx context.Context, chi *tls.ClientHelloInfo) (*tls.Certificate, error) {
+	p.mu.Lock()
+	d := p.delay
+	p.mu.Unlock()
+	if d > 0 {
+		time.Sleep(d)
+	}
 	p.mu.Lock()
 	defer p.mu.Unlock()
 	p.calls++
@@ -320,6 +389,7 @@ func (p *fakeCertProvider) GetCertificateWithContext(ctx context.Context, chi *t
 	if !ok {
 		return nil, fmt.Errorf("fake cert provider: no certificate for %q", chi.ServerName)
 	}
+	p.returnedAt = time.Now()
 	return c, nil
 }
 func (p *fakeCertProvider) OnHandshake(cipher.OnHandshakeFunc) {}
